@@ -3,14 +3,14 @@ package main
 import (
 	"encoding/json"
 	"flag"
-	"os/exec"
-	"sync"
 	"fmt"
 	"os"
+	"os/exec"
 	"path/filepath"
 	"sort"
 	"strconv"
 	"strings"
+	"sync"
 	"time"
 
 	"golang.org/x/tools/go/ssa"
